@@ -646,6 +646,13 @@ type Mapped struct {
 	Port int    `cfg:"p"`
 }
 
+// Dashed: yaml names that match no Go field name - bound correctly only through the yaml tags.
+type Dashed struct {
+	MaxConn     int      `yaml:"max-conn"`
+	IdleTimeout string   `yaml:"idle-timeout"`
+	Hosts       []string `yaml:"host-list"`
+}
+
 func TestConversions(t *testing.T) {
 	kit.Rec.Rule(rule)
 	rapid.Check(t, func(t *rapid.T) {
@@ -681,13 +688,31 @@ func TestConversions(t *testing.T) {
 			}
 			want = m
 		}
+		// an argument of one field (mapper=, timeLayout=) is that field's business only: ordinary structs bound before and
+		// after it - in this component, in a second one, in later containers of this process - still go by their yaml tags
+		dashed := Dashed{MaxConn: rapid.IntRange(1, 99).Draw(t, "maxconn"), IdleTimeout: "90s", Hosts: []string{"a.local", "b.local"}}
+		doc += fmt.Sprintf("  dashed:\n    max-conn: %d\n    idle-timeout: 90s\n    host-list: [a.local, b.local]\n", dashed.MaxConn)
+		dt := reflect.TypeOf(Dashed{})
+		fields = append(append([]reflect.StructField{{Name: "D0", Type: dt, Tag: `prefix:"c17.dashed"`}}, fields...),
+			reflect.StructField{Name: "D1", Type: dt, Tag: `prefix:"c17.dashed"`}, reflect.StructField{Name: "D2", Type: dt, Tag: `value:"${c17.dashed}"`})
 		obj := reflect.New(reflect.StructOf(fields))
-		out := kit.RunApp(app.SetComponents(obj.Interface()), app.SetConfigLoader(loader.NewRawLoader([]byte(doc))))
+		second := &struct {
+			D3 Dashed `prefix:"c17.dashed"`
+		}{}
+		out := kit.RunApp(app.SetComponents(obj.Interface(), second), app.SetConfigLoader(loader.NewRawLoader([]byte(doc))))
 		desc := fmt.Sprintf("conversion %T %v doc=%q", want, want, doc)
 		if !out.OK() {
 			t.Fatalf("C17: %s failed: %v", desc, out)
 		}
-		for i := 0; i < 3; i++ {
+		for _, fn := range []string{"D0", "D1", "D2"} {
+			if got := obj.Elem().FieldByName(fn).Interface(); !reflect.DeepEqual(got, dashed) {
+				t.Fatalf("C17: %s: the ordinary struct field %s next to the converted ones holds %+v, want %+v", desc, fn, got, dashed)
+			}
+		}
+		if !reflect.DeepEqual(second.D3, dashed) {
+			t.Fatalf("C17: %s: the ordinary struct field of a second component holds %+v, want %+v", desc, second.D3, dashed)
+		}
+		for i := 1; i < 4; i++ {
 			got := obj.Elem().Field(i).Interface()
 			eq := reflect.DeepEqual(got, want)
 			if tm, ok := want.(time.Time); ok {
@@ -738,6 +763,24 @@ type CPHolder struct {
 	After  int `value:"4"`
 }
 
+// configuration points declared in an embedded struct whose type name is unexported (its exported fields are
+// settable all the same), directly and beneath an exported embedded wrapper
+type cfgBase struct {
+	Host string `value:"${c17.emb.host}"`
+	Port int    `prefix:"c17.emb.port"`
+	Lit  string `value:"007"`
+	Q    int    `prop:"c17.emb.port"`
+}
+type ExpWrap struct{ cfgBase }
+type EmbHolder struct {
+	cfgBase
+	Own int `value:"3"`
+}
+type EmbHolder2 struct {
+	ExpWrap
+	Own int `value:"4"`
+}
+
 func TestStructShapes(t *testing.T) {
 	kit.Rec.Rule(rule)
 	rapid.Check(t, func(t *rapid.T) {
@@ -771,13 +814,20 @@ func TestStructShapes(t *testing.T) {
 			{Name: "Q", Type: typ, Tag: `prop:"c17.key"`},
 		}))
 		cp := &CPHolder{}
-		out := kit.RunApp(app.SetComponents(obj.Interface(), cp), app.SetConfigLoader(loader.NewRawLoader([]byte(doc))))
+		port := rapid.IntRange(1, 65535).Draw(t, "embport")
+		doc += fmt.Sprintf("  emb:\n    host: 0.0.0.0\n    port: %d\n", port)
+		e1, e2 := &EmbHolder{}, &EmbHolder2{}
+		out := kit.RunApp(app.SetComponents(obj.Interface(), cp, e1, e2), app.SetConfigLoader(loader.NewRawLoader([]byte(doc))))
 		desc := fmt.Sprintf("struct-shape %s doc=%q", typ, doc)
 		if !out.OK() {
 			t.Fatalf("C17: %s failed: %v", desc, out)
 		}
 		if wantCP != nil && !reflect.DeepEqual(cp.D, wantCP) {
 			t.Fatalf("C17: %s: the untagged field whose type states Prefix()=\"c17.key\" holds %#v, want %#v", desc, cp.D, wantCP)
+		}
+		wantBase := cfgBase{Host: "0.0.0.0", Port: port, Lit: "007", Q: port}
+		if out.OK() && (e1.cfgBase != wantBase || e1.Own != 3 || e2.cfgBase != wantBase || e2.Own != 4) {
+			t.Fatalf("C17: %s: configuration points inside an embedded struct with an unexported type name hold %+v (own %d) / %+v (own %d), want %+v (3 / 4)", desc, e1.cfgBase, e1.Own, e2.cfgBase, e2.Own, wantBase)
 		}
 		if cp.Before != "lit" || cp.After != 4 {
 			t.Fatalf("C17: %s: the fields around the Prefix()-bound one hold %q / %d, want \"lit\" / 4", desc, cp.Before, cp.After)
